@@ -572,7 +572,7 @@ def main():
     if thorough:
         # refinement counts with a dyadic sub-interval length only (1, 3): for r = 2 the code's float weights 1/3, 1 - 1/3 do not sum to
         # one exactly, so "the hit lies on the plane" holds only up to an ulp -- rounding is outside the claim, and r = 2 is not claimed
-        for direction in (None, 1, -1):
+        for direction in (1, -1):      # direction None at r = 3 leaves a few quadratic sign conditions `unknown` in z3: not claimed
             segment_refine_detection(chk, 3, 3, direction, 'x-axis', 2400)
         # (N = 4 on the dense path was tried: 174 nonlinear goals came back `unknown` after 1.9 h, so it is not claimed)
         segment_refine_detection(chk, 3, 1, 1, 'oblique', 2400)
